@@ -27,7 +27,7 @@ const (
 
 func verifC14Tick(ctx context.Context) {
 	p := verifNewProcessor(0)
-	n := zzverif.Len("n", 1, 3, 0) // 0: no guardian set learned yet (entries: operator injection, parked signatures)
+	n := zzverif.Len("n", 1, 3, 0) // 0: no guardian set learned yet (the only possible entry: an operator injection)
 	gsIndex := zzverif.U32("gsidx")
 	if n > 0 {
 		p.gs = verifSet(gsIndex, verifRange(0, n)...)
@@ -39,7 +39,9 @@ func verifC14Tick(ctx context.Context) {
 	hash := "digest-key"
 
 	kind := zzverif.Len("kind", 0, 1, 2) // 0 observed on chain, 1 signatures only (never observed), 2 injected by the operator
-	zzverif.Assume(n > 0 || kind != 0)    // a chain message is not signed before a guardian set is known
+	// before a guardian set is known neither chain messages are signed nor gossiped signatures parked (both handlers
+	// return early): the only entry that can exist then is an operator injection
+	zzverif.Assume(n > 0 || kind == 2)
 	fo := zzverif.Now()
 	s := &vaaState{firstObserved: fo, signatures: map[ethcommon.Address][]byte{}, source: "x",
 		submitted: zzverif.Bool("submitted"), settled: zzverif.Bool("settled"), retryCount: uint(zzverif.U32("retryCount"))}
@@ -77,6 +79,12 @@ func verifC14Tick(ctx context.Context) {
 		for len(verifReqC) < cap(verifReqC) {
 			verifReqC <- &gossipv1.ObservationRequest{ChainId: 0xdead}
 		}
+	}
+	// a store fault during the tick: the lookup of the stored VAA fails with an error that is not "not found"
+	// (the store was closed); a failed lookup is not evidence that a quorum VAA is stored
+	storeFault := !stored && zzverif.Len("storeFault", 0, 1) == 1
+	if storeFault {
+		_ = p.db.Close()
 	}
 	before := *s
 	tb := zzverif.Now()
